@@ -25,6 +25,9 @@
 #include <cstring>
 #include <sys/wait.h>
 #include <unistd.h>
+#include <thread>
+#include <atomic>
+#include <algorithm>
 
 using namespace icinga;
 
@@ -727,6 +730,157 @@ VOP(ps_kill) { Injected(a, "kill", "signal=KILL"); }
 // ps_fault what=... call=<syscall> n=<k> err=<ERRNO> : the k-th <call> of the write window fails with <ERRNO> (disk full,
 // I/O error, quota ...); the process goes on; the file must be the complete old or the complete new version
 VOP(ps_fault) { Injected(a, "fault", "error=" + a.str("err", "ENOSPC"), true); }
+
+// ------------------------------------------------------------------ (iv) the final dump at shutdown next to a periodic dump
+// IcingaApplication::DumpProgramState() is called by the retention timer's callback (a pool thread) and by OnShutdown()
+// (main thread; it stops the timer without waiting for a running callback).  Directed two-thread schedules WITHOUT any
+// hook in the code under test: a dump is held inside its serialisation by an ObjectLock on a host it must serialise
+// (SerializeObject locks every object; the lock is recursive, so the thread that owns it passes).
+//   ps_dumpstate                       one complete DumpProgramState ("the previous periodic dump")
+//   ps_shutdown sched=parked val=<v> state=<k>       (needs >= 2 hosts; the lock of the LAST host is owned by a holder thread)
+//        periodic dump (thread Y) held at the last host at the latest, its temp file created;  change: notes of host 0 := v,
+//        a check result with state k on every host but the last;  the shutdown dump (thread Z): clean-up, own temp file, held
+//        too;  both released;  [observation by Z when its dump has returned].  An implementation that makes the second
+//        caller wait (no temp file of Z within 1.5 s) or return at once is simply released.
+//   ps_shutdown sched=late val=<v> state=<k>
+//        change;  the shutdown dump (thread X, owns the lock of host 0) held at the last host with its temp file created;  a
+//        periodic dump (thread Y) begins: clean-up of <file>.tmp.*, own temp file;  both released;  [observation by X when its
+//        dump has returned or thrown, while Y is still held on X's lock].
+// Observation = the two files as they are when the shutdown dump has returned (what the next start finds if the process
+// exits now): did the dump throw; are the files byte-identical to those before (stale).  Unless it threw: fresh
+// objects from the same configuration, RestoreObjects + evaluation of modified-attributes.conf FROM THOSE FILES, compared.
+VOP(ps_dumpstate)
+{
+	bool threw = false;
+	try { IcingaApplication::GetInstance()->DumpProgramState(); } catch (const std::exception&) { threw = true; }
+	Out(std::string("dumpstate") + (threw ? " threw" : ""));
+}
+
+static std::vector<std::string> PsTempFiles(const std::string& fin)
+{
+	std::vector<std::string> r;
+	try { Utility::Glob(fin + ".tmp.*", [&r](const String& p) { r.push_back(p.GetData()); }, GlobFile); } catch (...) {}
+	return r;
+}
+
+template<typename F> static bool PsWaitFor(F cond, int ms = 5000)
+{
+	for (int i = 0; i < ms * 2; i++) { if (cond()) return true; usleep(500); }
+	return false;
+}
+
+VOP(ps_shutdown)
+{
+	std::string sched = a.str("sched", "parked");
+	IcingaApplication::Ptr app = IcingaApplication::GetInstance();
+	std::string sp = Configuration::StatePath.GetData(), mp = Configuration::ModAttrPath.GetData();
+	bool e1 = false, e2 = false;
+	std::string oldS = ReadFile(sp, e1), oldM = ReadFile(mp, e2);
+	std::string snapS, snapM;
+	bool snapSe = false, snapMe = false, threw = false, pto = false;
+	std::vector<Dictionary::Ptr> bh;
+	std::string modLine;
+	Dictionary::Ptr parkBefore = Serialize(l_Hs.back(), FAState);
+	auto change = [&](bool all) {
+		bool mok = true;
+		try { l_Hs.at(0)->ModifyAttribute("notes", ParseVal(a.str("val", "S78"))); } catch (const std::exception&) { mok = false; }
+		modLine = MState("mod", mok, 0);
+		double now = Utility::GetTime();
+		for (size_t i = 0; i + (all ? 0 : 1) < l_Hs.size(); i++) {
+			CheckResult::Ptr cr = new CheckResult();
+			cr->SetState((ServiceState)((i + a.num("state", 2)) % 4));
+			cr->SetScheduleStart(now); cr->SetScheduleEnd(now); cr->SetExecutionStart(now); cr->SetExecutionEnd(now);
+			cr->SetOutput("shutdown-" + std::to_string(i) + "-" + a.str("val", "S78"));
+			l_Hs[i]->ProcessCheckResult(cr);
+		}
+		// (the held host is not changed here and cannot be read while its lock is taken: its snapshot was made before)
+		for (size_t i = 0; i < l_Hs.size(); i++) bh.push_back((!all && i + 1 == l_Hs.size()) ? parkBefore : Dictionary::Ptr(Serialize(l_Hs[i], FAState)));
+	};
+	auto observe = [&]() { snapS = ReadFile(sp, snapSe); snapM = ReadFile(mp, snapMe); };
+	// the object a dump is held at: the LAST host, its lock owned by a holder thread (never by a thread that calls
+	// DumpProgramState: an implementation that serialises its callers must not dead-lock the schedule)
+	Host::Ptr park = l_Hs.back();
+	std::atomic<bool> held{false}, release{false};
+	std::thread holder;
+	auto hold = [&]() {
+		holder = std::thread([&]() { ObjectLock l(park); held = true; while (!release.load()) usleep(200); });
+		PsWaitFor([&]() { return held.load(); });
+	};
+	auto otherTemp = [&](const std::vector<std::string>& known) {
+		for (auto& t : PsTempFiles(sp)) if (std::find(known.begin(), known.end(), t) == known.end()) return true;
+		return false;
+	};
+	if (sched == "parked") {
+		hold();
+		std::atomic<bool> ydone{false}, zdone{false};
+		std::thread y([&]() { try { app->DumpProgramState(); } catch (const std::exception&) {} ydone = true; });      // the periodic dump
+		std::vector<std::string> yt;
+		if (!PsWaitFor([&]() { yt = PsTempFiles(sp); return !yt.empty() || ydone.load(); })) pto = true;
+		usleep(30000);                                   // it is inside its serialisation now, held at the last host at the latest
+		change(false);                                   // not the held host (its lock is taken)
+		std::thread z([&]() {                            // OnShutdown's dump
+			try { app->DumpProgramState(); } catch (const std::exception&) { threw = true; }
+			observe();
+			zdone = true;
+		});
+		// its clean-up and its own temp file (or: it returned at once / it waits for the other dump - then there is none)
+		PsWaitFor([&]() { return otherTemp(yt) || zdone.load(); }, 1500);
+		usleep(30000);
+		release = true;
+		z.join(); y.join();
+	} else if (sched == "late") {
+		change(true);
+		hold();
+		std::atomic<bool> xdone{false}, ydone{false};
+		std::thread x([&]() {
+			ObjectLock lockB(l_Hs.at(0));                  // keeps the other dump inside its serialisation until X has observed
+			try { app->DumpProgramState(); } catch (const std::exception&) { threw = true; }
+			observe();
+			xdone = true;
+		});
+		std::vector<std::string> xt;
+		if (!PsWaitFor([&]() { xt = PsTempFiles(sp); return !xt.empty() || xdone.load(); })) pto = true;
+		usleep(30000);
+		std::thread y([&]() { try { app->DumpProgramState(); } catch (const std::exception&) {} ydone = true; });
+		// (a DumpProgramState that serialises its callers keeps Y in front of its clean-up: then there is no such file - go on)
+		PsWaitFor([&]() { return otherTemp(xt) || ydone.load(); }, 1500);
+		usleep(30000);
+		release = true;
+		x.join(); y.join();
+	} else {
+		change(true);
+		try { app->DumpProgramState(); } catch (const std::exception&) { threw = true; }
+		observe();
+	}
+	release = true;
+	if (holder.joinable()) holder.join();
+	bool stale = (snapSe == e1 && snapS == oldS) || (snapMe == e2 && snapM == oldM);
+	Out(modLine);
+	Out(std::string("shut threw=") + (threw ? "1" : "0") + " stale=" + (stale ? "1" : "0") + (pto ? " pto=1" : ""));
+	if (sched == "late") return;
+	// the disk as it was when the shutdown dump returned
+	{ std::ofstream f(sp, std::ios::binary | std::ios::trunc); f << snapS; }
+	{ std::ofstream f(mp, std::ios::binary | std::ios::trunc); f << snapM; }
+	auto txt = ModAttrDigests();
+	RemoveAll();
+	Create();
+	std::vector<Dictionary::Ptr> fh, ah;
+	for (const Host::Ptr& h : l_Hs) fh.push_back(Serialize(h, FAState));
+	bool rthrew = false;
+	try { ConfigObject::RestoreObjects(sp); } catch (const std::exception&) { rthrew = true; }
+	bool ok = !rthrew && ReplayModAttrs();
+	for (size_t i = 0; i < l_N; i++) Out(MState("rst", ok, i) + TxtOf(txt, i));
+	for (const Host::Ptr& h : l_Hs) ah.push_back(Serialize(h, FAState));
+	std::vector<std::string> diff;
+	for (size_t i = 0; i < l_Hs.size() && i < bh.size(); i++) {
+		std::vector<std::string> d;
+		Diff("h" + std::to_string(i) + ".", bh[i], ah[i], d);
+		diff.insert(diff.end(), d.begin(), d.end());
+	}
+	std::string d;
+	for (auto& x : diff) { if (!d.empty()) d += ","; d += x; }
+	Out(std::string("st all=") + (diff.empty() ? "1" : "0") + " diff=" + (d.empty() ? "-" : d));
+}
 
 static struct PsCaseEnd {
 	PsCaseEnd() {
